@@ -88,9 +88,49 @@ pub fn chain_case(uni: &UniCfg, variant: u64) -> Case {
     c
 }
 
+/// spellings just below PATH_MAX (4094 and 4095 bytes: the longest strings the quantifier contains)
+/// and names of 255 / 256 bytes, both facades
+pub fn long_path_case(uni: &UniCfg, variant: u64) -> Case {
+    let mut w = crate::world::WorldSpec::default();
+    let n255 = "n".repeat(255);
+    w.push(crate::world::Entry::dir("root"));
+    w.push(crate::world::Entry::file("root/a/f", "LONG-SPELLING-TARGET"));
+    w.push(crate::world::Entry::link("root/a/l", "f"));
+    w.push(crate::world::Entry::file(&format!("root/{n255}/f"), "255-BYTE-NAME"));
+    w.push(crate::world::Entry::file("outside/secret", "OUTSIDE-SECRET"));
+    // total length exactly `len`: "./" * k (+ one extra "/" for the parity) + tail
+    let spell = |len: usize, tail: &str| {
+        let pad = len - tail.len();
+        let mut p = "./".repeat(pad / 2);
+        if pad % 2 == 1 {
+            p.insert(0, '/');
+        }
+        p.push_str(tail);
+        p
+    };
+    let o = OpSpec::new;
+    let cfac = variant % 2 == 1;
+    let f = |s: OpSpec| if cfac { s.c() } else { s };
+    let mut c = Case::new("C01", "quiescent", uni.clone());
+    c.world = Some(w);
+    c.jobs = vec![vec![
+        f(o(Op::Resolve { path: spell(4095, "a/f"), nofollow: false })),
+        f(o(Op::Resolve { path: spell(4094, "a/l"), nofollow: true })),
+        f(o(Op::OpenSubpath { path: spell(4095, "a/l"), flags: libc::O_RDONLY })),
+        f(o(Op::Readlink { path: spell(4095, "a/l"), bufsz: 16 })),
+        f(o(Op::Resolve { path: format!("{n255}/f"), nofollow: false })),
+        f(o(Op::Resolve { path: format!("{n255}n/f"), nofollow: false })),
+        f(o(Op::Resolve { path: spell(4095, "a/../a/f/"), nofollow: false })),
+    ]];
+    c
+}
+
 pub fn gen_case(seed: u64, idx: u64, uni: &UniCfg) -> Case {
     if idx % 97 == 11 {
         return chain_case(uni, idx / 97 + seed);
+    }
+    if idx % 97 == 12 {
+        return long_path_case(uni, idx / 97 + seed);
     }
     let mut rng = Rng::new(rng::derive(seed, "C01", idx));
     let mut wp = gen::WorldParams::swarm(&mut rng);
